@@ -904,7 +904,7 @@ func (z dec) divRecursiveStep(u, v dec, depth int, tmp *dec, temps []*dec) {
 
 	// Now u < (v<<B), compute lower bits in the same way.
 	// Choose shift = B-1 again.
-	s := B
+	s := B - 1
 	qhat := *temps[depth]
 	qhat.clear()
 	qhat.divRecursiveStep(u[s:].norm(), v[s:], depth+1, tmp, temps)
